@@ -194,6 +194,16 @@ pub fn spaces(tier: Tier) -> Vec<Space<'static>> {
             acc.vio("MODEL-SELFTEST:documented-example-not-in-core-grammar", || json!({"input": golden[i as usize]}));
         }
     }));
+    // member names that are keywords of the path language or literals, in every name position
+    {
+        const KW: [&str; 12] = ["last", "to", "exists", "null", "true", "false", "LAST", "To", "Exists", "lastx", "tox", "nullx"];
+        sp.push(Space::new("names that are keywords or literals in every name position", KW.len() as u64, |i, acc| {
+            let k = KW[i as usize];
+            for t in [format!("$.{}", k), format!("$:{}", k), format!("$[\"{}\"]", k), format!("$.a.{}", k), format!("$.{}.a", k), format!("$.{}[0]", k), format!("$.{}[last]", k), format!("$[0 to last].{}", k), format!("$[*]?(@.{} == 1)", k), format!("$[*]?(exists(@.{}))", k), format!("$.{} == null", k), format!("{}.a", k), format!("{}", k)] {
+                judge_raw(t.as_bytes(), acc);
+            }
+        }));
+    }
     // numbers around every width boundary as indices and literals
     {
         let nums = crate::checks::c20::extreme_number_texts();
